@@ -36,6 +36,10 @@ def main(c):
     for big in (131073, 196608, 65537):
         seq = [1] * rnd.choice([249, 250, 251]) + [big] + [1] * 9 + [65537, 0, 1, 1]
         lines.append("drbg %s %s" % (",".join(map(str, seq)), ent(12)))
+    # a request of several pieces that begins before the 256th generate call and ends after it: the fresh entropy is due in the middle
+    for pre, big in ((254, 196608), (255, 131073), (253, 327680 + 17)):
+        seq = [1] * pre + [big] + [1] * 3
+        lines.append("drbg %s %s" % (",".join(map(str, seq)), ent(12)))
     if not c.quick:
         seq = [65537] * 126 + [32] * 6 + [131073] + [32] * 3
         lines.append("drbg %s %s" % (",".join(map(str, seq)), ent(12)))
